@@ -312,6 +312,21 @@ func (e *Env) pass(class string) ([]byte, string) {
 	return FreshPass(e.Rng), "other"
 }
 
+// scryptFor: the scrypt cost parameters of a passphrase change. N is the remark-free selector of the operation: every
+// fourth change uses parameters at the upper bounds the key store accepts for stored parameters (r = 256 or p = 256 at a
+// small N), the others the cheap defaults.
+func (e *Env) scryptFor(op Op) *keystore.ScryptOptions {
+	switch (len(e.Trace) + op.X) % 8 {
+	case 3:
+		e.Run.Count("passphrase_changes_with_scrypt_r_at_its_bound", 1)
+		return &keystore.ScryptOptions{N: 16, R: 256, P: 1}
+	case 7:
+		e.Run.Count("passphrase_changes_with_scrypt_p_at_its_bound", 1)
+		return &keystore.ScryptOptions{N: 16, R: 1, P: 256}
+	}
+	return FastScrypt
+}
+
 func (e *Env) ks(sel int) *MKs {
 	if len(e.M.Order) == 0 {
 		return nil
@@ -511,7 +526,7 @@ func (e *Env) Do(op Op) Res {
 		if f := e.front(); f != nil {
 			err = f.ChPriv(old, np)
 		} else {
-			err = w.M.ChangePrivPassphrase(old, np, FastScrypt)
+			err = w.M.ChangePrivPassphrase(old, np, e.scryptFor(op))
 		}
 		res.Err, res.Ack = err, err == nil
 		if err == nil {
@@ -561,7 +576,7 @@ func (e *Env) Do(op Op) Res {
 		if f := e.front(); f != nil {
 			err = f.ChPub(old, np)
 		} else {
-			err = w.M.ChangePubPassphrase(old, np, FastScrypt)
+			err = w.M.ChangePubPassphrase(old, np, e.scryptFor(op))
 		}
 		res.Err, res.Ack = err, err == nil
 		if err == nil {
